@@ -80,6 +80,7 @@ def register(E):
     from contracts import route as _route
     _route.register_more(E)
     E.specns['INSERT_AT'] = __import__('pyvc.interp', fromlist=['VSpecFn']).VSpecFn(I0, 'INSERT_AT')
+    E.specns['INSERT_AT'].keep_opt = True      # distinguishes index=None itself
 
     E.add_contract(Contract(
         'clastic.application.Application.add',
